@@ -12,15 +12,17 @@ SPEC = dict(
         "the reference drop ratio for the statistical clause is the anchored SRE formula with K=1.5 and protection 5; only its frequency over >= 1000-2000 rejectable calls is compared, with very wide margins",
         "sequential histories: one call at a time per process in the model test (concurrent callers are covered by the -race run, where only schedule-independent clauses are asserted and phases are arranged so that no outcome can age out half-way through a phase)",
         "a rejected call is recognised by req/handler/invoker not having run; the returned error of an admitted call is not compared with req's error except 'not ErrServiceUnavailable unless req returned it'",
-        "NoBreakerFor, the contents of the error window / alert text, and gRPC codes above Unauthenticated are outside the statement and not asserted",
+        "NoBreakerFor(name) is an opt-out: on such a name only the per-call clauses and 'never cut off while total-5 <= 1.5*accepts' are asserted (not that it trips), plus that other names keep their breaker; the contents of the error window / alert text, Breaker.Name(), and gRPC codes above Unauthenticated are not asserted",
+        "sqlx statement-level methods (Prepare's StmtSession) and RawDB do not go through the conn's breaker in this tree and are outside the monitor; RollingWindow options (IgnoreCurrentBucket, other sizes) are not reachable through the breaker",
         "an error without a gRPC status has the code gRPC's own status.Code gives it (Unknown; a wrapped benign status its own code or Unknown) and is therefore benign; raw context.Canceled is benign; raw context.DeadlineExceeded and wrapped failing statuses are left unasserted (newer gRPC maps them to failing codes, older ones to Unknown)",
         "HTTP: a handler that wrote status >= 500 and then panicked must count as a failure (keeps failing => cut off); for a handler that panics after writing < 500 or nothing only 'some outcome' would be required, which is not observable black-box through BreakerHandler and is not asserted",
         "an admitted call whose req itself returns ErrServiceUnavailable must not run the fallback and must hand req's error to the caller",
     ],
     runs=[
-        dict(pkg="./lib/breaker", run="^TestVerifC01(Model|TripRecover)$", **_T),
+        dict(pkg="./lib/breaker", run="^TestVerifC01(Model|TripRecover|Disabled)$", **_T),
         dict(pkg="./lib/breaker", run="^TestVerifC01Race$", race=True, count_thorough=5, **_T),
         dict(pkg="./api/handler", run="^TestVerifC01", **_T),
+        dict(pkg="./api/httpc", run="^TestVerifC01", **_T),
         dict(pkg="./rpc/internal/codes", run="^TestVerifC01", **_T),
         dict(pkg="./rpc/internal/clientinterceptors", run="^TestVerifC01", **_T),
         dict(pkg="./rpc/internal/serverinterceptors", run="^TestVerifC01", **_T),
